@@ -119,12 +119,21 @@ func TestC12_CloseDuringConnect(t *testing.T) {
 				break
 			}
 		}
-		time.Sleep(2 * time.Millisecond)
-		c.Close()
-		select {
-		case <-done:
-		case <-time.After(5 * time.Second):
-			t.Fatal("connect did not return")
+		// Keep closing until Connect returns: on a loaded machine the connect goroutine may
+		// not even have started when the loop above is over, and a Close before c.stop is
+		// assigned is a no-op.
+		deadline := time.After(30 * time.Second)
+	wait:
+		for {
+			select {
+			case <-done:
+				break wait
+			case <-deadline:
+				t.Fatal("connect did not return")
+			default:
+				c.Close()
+				time.Sleep(time.Millisecond)
+			}
 		}
 		in.Close()
 	}
